@@ -918,7 +918,9 @@ def gen_items(rng, names_present, d):
     n_items = rng.randint(1, 5)
     for _ in range(n_items):
         c = rng.random()
-        pad = lambda s: rng.choice(["", " ", "  ", "\t"]) + s + rng.choice(["", " ", "\t", " \t"])
+        # white space as in the documented multi-line populate strings: blanks, tabs, newlines with indentation
+        pad = lambda s: (rng.choice(["", " ", "  ", "\t", "", " ", "\n", "\n    ", " \n\t"]) + s
+                         + rng.choice(["", " ", "\t", " \t", "", " ", "\n", "\n    ", " \n  "]))
         if c < 0.06:
             items.append((rng.choice(["", " ", "\t"]), ("blank",)))
             continue
